@@ -522,7 +522,8 @@ Proof.
   - assert (length (bd_index_body m) = 0)%nat by lia.
     destruct (bd_index_body m); [reflexivity|discriminate].
   - replace (Z.to_nat (Z.of_nat (length m) * Z.of_nat (bd_ksz klen))) with (length (bd_index_body m)) by lia.
-    destruct (Nat.ltb_spec (length (bd_index_body m ++ sh)) (length (bd_index_body m))) as [Hl2|_].
+    replace (Z.of_nat (length m) * Z.of_nat (bd_ksz klen)) with (Z.of_nat (length (bd_index_body m))) by lia.
+    destruct (Z.ltb_spec (Z.of_nat (length (bd_index_body m ++ sh))) (Z.of_nat (length (bd_index_body m)))) as [Hl2|_].
     { rewrite app_length in Hl2. lia. }
     rewrite bd_firstn_app_exact, bd_skipn_app_exact by reflexivity. reflexivity.
 Qed.
@@ -534,7 +535,11 @@ Lemma bd_read_at_record data o s tail : 0 <= o -> Z.of_nat (length s) < 2 ^ 31 -
   bd_read_at data o = BdRec s.
 Proof.
   intros Ho Hs Hsk. unfold bd_read_at.
-  destruct (Z.ltb_spec o 0) as [|_]; [lia|]. rewrite Hsk.
+  destruct (Z.ltb_spec o 0) as [|_]; [lia|].
+  destruct (Z.ltb_spec (Z.of_nat (length data)) o) as [Hlo|_].
+  { rewrite skipn_all2 in Hsk by lia. destruct (bd_le 4 (Z.of_nat (length s))) eqn:E; [|discriminate].
+    apply (f_equal (@length Z)) in E. rewrite bd_le_length in E. discriminate. }
+  rewrite Hsk.
   destruct (Nat.ltb_spec (length (bd_le 4 (Z.of_nat (length s)) ++ s ++ tail)) 4) as [Hl|_].
   { rewrite app_length, bd_le_length in Hl. lia. }
   rewrite bd_firstn_app_exact by (rewrite bd_le_length; reflexivity).
@@ -542,7 +547,7 @@ Proof.
   destruct (Z.ltb_spec (Z.of_nat (length s)) 0) as [|_]; [lia|].
   rewrite bd_skipn_app_exact by (rewrite bd_le_length; reflexivity).
   rewrite Nat2Z.id.
-  destruct (Nat.ltb_spec (length (s ++ tail)) (length s)) as [Hl|_].
+  destruct (Z.ltb_spec (Z.of_nat (length (s ++ tail))) (Z.of_nat (length s))) as [Hl|_].
   { rewrite app_length in Hl. lia. }
   rewrite bd_firstn_app_exact by reflexivity. reflexivity.
 Qed.
@@ -550,20 +555,21 @@ Qed.
 (* a record that can be read from a prefix of the data file reads identically from the whole *)
 Lemma bd_read_at_prefix d c o s : bd_read_at d o = BdRec s -> bd_read_at (d ++ c) o = BdRec s.
 Proof.
-  unfold bd_read_at. destruct (o <? 0); [discriminate|].
+  unfold bd_read_at. destruct (Z.ltb_spec o 0) as [|Ho0]; [discriminate|].
   set (n := Z.to_nat o).
-  destruct (Nat.le_gt_cases n (length d)) as [Hn|Hn].
-  2:{ rewrite (skipn_all2 d) by lia. cbn. discriminate. }
+  destruct (Z.ltb_spec (Z.of_nat (length d)) o) as [|Hn']; [discriminate|].
+  assert (Hn : (n <= length d)%nat) by lia.
+  destruct (Z.ltb_spec (Z.of_nat (length (d ++ c))) o) as [Hl|_]; [rewrite app_length in Hl; lia|].
   rewrite bd_skipn_prefix by exact Hn. set (x := skipn n d).
   destruct (Nat.ltb_spec (length x) 4) as [|Hx]; [discriminate|].
   destruct (Nat.ltb_spec (length (x ++ c)) 4) as [Hl|_]; [rewrite app_length in Hl; lia|].
   rewrite bd_firstn_prefix by exact Hx.
-  destruct (bd_signed 32 (bd_unle (firstn 4 x)) <? 0); [auto|].
   rewrite bd_skipn_prefix by exact Hx.
-  set (dl := Z.to_nat (bd_signed 32 (bd_unle (firstn 4 x)))).
-  destruct (Nat.ltb_spec (length (skipn 4 x)) dl) as [|Hp]; [discriminate|].
-  destruct (Nat.ltb_spec (length (skipn 4 x ++ c)) dl) as [Hl|_]; [rewrite app_length in Hl; lia|].
-  rewrite bd_firstn_prefix by exact Hp. auto.
+  destruct (Z.ltb_spec (bd_signed 32 (bd_unle (firstn 4 x))) 0) as [|Hd0]; [auto|].
+  set (dl := bd_signed 32 (bd_unle (firstn 4 x))) in *.
+  destruct (Z.ltb_spec (Z.of_nat (length (skipn 4 x))) dl) as [|Hp]; [discriminate|].
+  destruct (Z.ltb_spec (Z.of_nat (length (skipn 4 x ++ c))) dl) as [Hl|_]; [rewrite app_length in Hl; lia|].
+  rewrite bd_firstn_prefix by lia. auto.
 Qed.
 
 Lemma bd_read_with_prefix look d c s :
@@ -769,8 +775,10 @@ Section Codec.
       - assert (body = []) by (destruct body; [reflexivity|cbn in Hbl; lia]).
         split; [congruence|]. split; [|rewrite <- H; exact Hreads].
         exists hc. rewrite H in Hsk. cbn [app] in Hsk. symmetry. exact Hsk.
-      - replace (Z.to_nat (Z.of_nat (length m) * Z.of_nat (bd_ksz klen))) with (length body) by lia.
-        destruct (Nat.ltb_spec (length b') (length body)) as [|Hlb]; [exact I|].
+      - replace (Z.of_nat (length m) * Z.of_nat (bd_ksz klen)) with (Z.of_nat (length body)) by lia.
+        rewrite Nat2Z.id.
+        destruct (Z.ltb_spec (Z.of_nat (length b')) (Z.of_nat (length body))) as [|Hlb']; [exact I|].
+        assert (Hlb : (length body <= length b')%nat) by lia.
         assert (Hf : firstn (length body) b' = body).
         { assert (E : firstn (length body) (b' ++ hc) = firstn (length body) b') by (apply bd_firstn_prefix; exact Hlb).
           rewrite <- E, Hsk. apply bd_firstn_app_exact. reflexivity. }
